@@ -17,10 +17,6 @@ Lifecycle(r, cls) == LifecycleT(r, cls, TRUE)
 \* Lease.Validate / Lease2.Validate consult the clock: only leases that end after 2097 (0xF0000000 s) are judged
 FarFuture(sec) == ~LtBE(sec, << 240, 0, 0, 0 >>)
 
-CertCtorValid(type, payload) ==
-  /\ type \in 0..5 /\ Len(payload) <= 65535
-  /\ (type \in {CertNull, CertHidden} => Len(payload) = 0)
-  /\ (type = CertSigned => Len(payload) \in {40, 72})
 
 IdentityModelValid(m) ==
   /\ SigKnown(m.st) /\ CryptoKnown(m.ct) /\ LibSupportsPair(m.st, m.ct)
